@@ -355,6 +355,12 @@ class CompileScn:
                            "detail": "%s [%s text %r]: %s" % (ep, c.get("kind"), (c.get("text") or "")[:200], detail)})
         if not (o or {}).get("valid", True):
             add("front", "impl-vs-model", "front-end", "front-end outcome contradicts the grammar facts the model assumes: %s" % json.dumps(c.get("front"))[:300])
+        # the lexer's answer the model takes as a parameter against the lexer model (C01l): an error the
+        # lexer reports must be a position where no token rule matches.  Only this direction: the parser
+        # drives the lexer lazily and `primary : ruleEntity+` has no EOF, so what follows the last
+        # complete rule (or the parser's first error) may never be lexed at all.
+        if "lexOk" in (o or {}) and (c.get("front") or {}).get("lex") and o["lexOk"]:
+            add("front", "impl-vs-model", "lexer", "the lexer reports %s, the lexer model reads the whole text" % (c["front"]["lex"][:1],))
         exp = {e["ep"]: e for e in (o or {}).get("eps") or []}
         strict = c.get("kind") in ("valid", "nosal")
         for r in c.get("results") or []:
